@@ -58,3 +58,30 @@ func (d *DFPNSolver) VerifTable() []VerifEntry {
 func (d *DFPNSolver) VerifAttacker() tak.Color { return d.attacker }
 
 func VerifSaturatingAdd(l, r uint32) uint32 { return saturatingAdd(l, r) }
+
+// VerifSnap is everything a DFPNSolver carries from one Prove to the next.
+type VerifSnap struct {
+	attacker tak.Color
+	entries  []entry
+	killers  []tak.Move
+	pool     positionPool
+}
+
+// VerifSnapshot / VerifRestore let the harness probe "does Prove come back on this position" on a solver
+// that is in use, and put the solver back exactly as it was.
+func (d *DFPNSolver) VerifSnapshot() *VerifSnap {
+	return &VerifSnap{
+		attacker: d.attacker,
+		entries:  append([]entry(nil), d.table.entries...),
+		killers:  append([]tak.Move(nil), d.killers...),
+		pool:     d.pool,
+	}
+}
+
+func (d *DFPNSolver) VerifRestore(s *VerifSnap) {
+	d.attacker = s.attacker
+	copy(d.table.entries, s.entries)
+	d.killers = append([]tak.Move(nil), s.killers...)
+	d.pool = s.pool
+	d.stack = nil
+}
